@@ -572,7 +572,7 @@ func checkC17(p *Prog, r *Report) {
 	}
 
 	// ---- R17.6 which preference applies ---------------------------------------------------------------------
-	r.Rule("R17.6", "LocalPreference decides by candidate type first: a relay candidate gets its relay-protocol preference whatever its own transport; only non-relay candidates take the RFC 6544 TCP branch or the default. Foundation() is a pure function of type, address and network type (plus the explicit override): anything else it reads or writes must be reset wherever one of those inputs changes.", 2)
+	r.Rule("R17.6", "LocalPreference decides by candidate type first: a relay candidate gets its relay-protocol preference whatever its own transport; only non-relay candidates take the RFC 6544 TCP branch or the default. Foundation() is a pure function of type, address and network type (plus the explicit override): anything else it reads or writes must be reset wherever one of those inputs changes. Priority, TypePreference, LocalPreference and the pair priority keep no state.", 6)
 	if f := p.Fn("candidateBase.LocalPreference"); r.Anchor("candidateBase.LocalPreference", f != nil) {
 		t := p.NewTable(f)
 		t.Run()
@@ -637,6 +637,19 @@ func checkC17(p *Prog, r *Report) {
 		}
 		sort.Strings(still)
 		r.Check(len(still) == 0, "Foundation depends only on type, address and network type", p.Pos(f.Body.Pos()), "no stale memo", strings.Join(still, "; ")+": candidates of equal type, address and network type can report different foundations")
+	}
+	// the priority functions themselves keep no state
+	for _, name := range []string{"candidateBase.Priority", "candidateBase.TypePreference", "candidateBase.LocalPreference", "CandidatePair.priority"} {
+		f := p.Fn(name)
+		if !r.Anchor(name, f != nil) {
+			continue
+		}
+		var ws []string
+		for fv := range p.Effects(f).WritesT {
+			ws = append(ws, p.FieldName(fv))
+		}
+		sort.Strings(ws)
+		r.Check(len(ws) == 0, name+" is a pure function of the candidate's fields", p.Pos(f.Body.Pos()), "writes nothing", "writes "+strings.Join(ws, ", ")+": a remembered priority goes stale when the role, the override or the resolved network type changes, and the two agents stop ordering pairs identically (a memo needs a reset at every such change; this rule cannot see one)")
 	}
 }
 
